@@ -45,7 +45,9 @@ Logged(e) ==
 Enabled(e) ==
     CASE e.op = "add_initial" -> AddInitialOK(St, last, e.b)
       [] e.op = "add"         -> AddOK(St, last, e.b)
-      [] e.op = "threshold"   -> ThresholdOK(St, last, e.t)
+      \* the sampler applies the threshold chosen on its MAIN store to both stores, so for
+      \* the other store it need not be the likelihood of one of its own live samples
+      [] e.op = "threshold"   -> last \notin {"init", "finalise"} /\ ~liveNone
       [] e.op = "remove"      -> RemoveOK(St, last)
       [] e.op = "finalise"    -> FinaliseOK(St, last)
       [] OTHER                -> FALSE
